@@ -74,7 +74,10 @@ def corpus():
           mk_make(e, n, [], None, None, ("northing", "easting"), None, False, "no-data"),
           mk_make(e, n, [], [[[0.0, 1.0], [2.0, 3.0], [4.0, 5.0]]], ["a"], ("northing", "easting"), None, False, "transposed-data"),
           mk_table(("y", "x"), e, n, [("up", up)], [("a", d)], "dataset", "ne", "corpus-table"),
-          mk_table(("y", "x"), e, n, [], [("scalars", d)], "unnamed", "en", "corpus-unnamed-dataarray")]
+          mk_table(("y", "x"), e, n, [], [("scalars", d)], "unnamed", "en", "corpus-unnamed-dataarray"),
+          # a DataArray whose name is the integer 0 (a column label of a header-less table): it HAS a name
+          mk_table(("y", "x"), e, n, [], [("n0", d)], "named-int", "en", "corpus-dataarray-named-0"),
+          mk_table(("northing", "easting"), e, n, [("up", up)], [("n0", d)], "named-int", "ne", "corpus-dataarray-named-0")]
     return cs
 
 
@@ -107,10 +110,12 @@ def generate(rng, tier):
             cs.append(mk_make(E if two_d else e, N if two_d else no, extras, data, names, dims, exnames, rng.random() < 0.6,
                               ("make-2d" if two_d else "make-1d") + itag))
         elif u < 0.55:
-            form = rng.choice(["dataset", "dataset", "named", "unnamed"])
+            form = rng.choice(["dataset", "dataset", "named", "unnamed", "named-int"])
             vs = list(zip(names, data))
             if form != "dataset":
                 vs = [("scalars" if form == "unnamed" else names[0], data[0])]
+            if form == "named-int":
+                vs = [("n" + str(rng.choice([0, 0, 1, 7])), data[0])]      # ("n<k>" stands for the integer k in the protocol)
             cs.append(mk_table(dims, e, no, list(zip(exnames or [], extras)), vs, form, rng.choice(["en", "ne"]), "table-" + form + itag))
         elif u < 0.7:
             cs.append({"fn": "to1d", "kind": "to1d", "args": [E, N, extras],
@@ -165,7 +170,7 @@ def _ds_out(ds, dims):
 
 
 def _table_out(t):
-    return [[str(c), [int(v) if np.issubdtype(t[c].values.dtype, np.integer) else float(v) for v in t[c].values]] for c in t.columns]
+    return [["n" + str(c) if isinstance(c, (int, np.integer)) else str(c), [int(v) if np.issubdtype(t[c].values.dtype, np.integer) else float(v) for v in t[c].values]] for c in t.columns]
 
 
 def _A(x, role, case):
@@ -213,7 +218,7 @@ def impl(case):
         if form == "dataset":
             g = xr.Dataset({k: (tuple(dims), _A(v, "v" + str(k), case)) for k, v in vars_}, coords=coords)
         else:
-            g = xr.DataArray(_A(vars_[0][1], "v0", case), coords=coords, dims=tuple(dims), name=None if form == "unnamed" else vars_[0][0])
+            g = xr.DataArray(_A(vars_[0][1], "v0", case), coords=coords, dims=tuple(dims), name=None if form == "unnamed" else (int(vars_[0][0][1:]) if form == "named-int" else vars_[0][0]))
         t = C.call(vd.grid_to_table, g)
         return t if C.is_err(t) else _table_out(t)
     if fn == "to1d":
